@@ -75,6 +75,15 @@ func (vv *VarVal) Hierarchy() []Symbol {
 
 // Eval the object.
 func (vv *VarVal) Eval(s *Scope, depth int) Object {
+	if s != nil && vv.Pkg == nil && vv.Get == nil {
+		// A stand-in made when a function referring to the variable was
+		// compiled before the variable was defined. A binding made by let
+		// or by a caller is seen just as it is by a function compiled after
+		// the defvar, which keeps the symbol and looks it up when called.
+		if value, has := s.localGet(strings.ToLower(vv.name)); has {
+			return value
+		}
+	}
 	return vv.Value()
 }
 
